@@ -95,3 +95,176 @@ pub proof fn lemma_mid_shape(v0: Seq<BasicBlock>, v: Seq<BasicBlock>, seen: Set<
         }
     }
 }
+
+// ---- the AST side (module `ast` holds the real ast::Statement enum)
+pub open spec fn is_plain(s: ast::Statement) -> bool {
+    !(s is Block || s is While || s is IfThenElse || s is InitializationBlock)
+}
+// grammar fact taken as a precondition: initialization blocks only contain declarations and substitutions
+pub open spec fn init_wf(s: ast::Statement) -> bool
+    decreases s
+{
+    match s {
+        ast::Statement::InitializationBlock { initializations, .. } => all_plain(initializations@, initializations@.len() as int),
+        ast::Statement::Block { stmts, .. } => all_init_wf(stmts@, stmts@.len() as int),
+        ast::Statement::While { stmt, .. } => init_wf(*stmt),
+        ast::Statement::IfThenElse { if_case, else_case, .. } => init_wf(*if_case) && (match else_case { Some(e) => init_wf(*e), None => true }),
+        _ => true,
+    }
+}
+pub open spec fn all_plain(s: Seq<ast::Statement>, n: int) -> bool
+    decreases n
+{
+    if n <= 0 || n > s.len() { true } else { all_plain(s, n - 1) && is_plain(s[n - 1]) }
+}
+pub open spec fn all_init_wf(s: Seq<ast::Statement>, n: int) -> bool
+    decreases s, n
+{
+    if n <= 0 || n > s.len() { true } else { all_init_wf(s, n - 1) && init_wf(s[n - 1]) }
+}
+// an upper bound on the number of blocks a statement adds (resource bound for the usize index arithmetic)
+pub open spec fn weight(s: ast::Statement) -> nat
+    decreases s
+{
+    match s {
+        ast::Statement::While { stmt, .. } => 2 + weight(*stmt),
+        ast::Statement::IfThenElse { if_case, else_case, .. } => 2 + weight(*if_case) + (match else_case { Some(e) => weight(*e), None => 0 }),
+        ast::Statement::Block { stmts, .. } => seq_weight(stmts@, stmts@.len() as int),
+        _ => 0,
+    }
+}
+pub open spec fn seq_weight(s: Seq<ast::Statement>, n: int) -> nat
+    decreases s, n
+{
+    if n <= 0 || n > s.len() { 0 } else { seq_weight(s, n - 1) + 1 + weight(s[n - 1]) }
+}
+// loop nesting height (bound for `loop_depth + 1`)
+pub open spec fn height(s: ast::Statement) -> nat
+    decreases s
+{
+    match s {
+        ast::Statement::While { stmt, .. } => 1 + height(*stmt),
+        ast::Statement::IfThenElse { if_case, else_case, .. } => {
+            let a = height(*if_case); let b = (match else_case { Some(e) => height(*e), None => 0 }); if a >= b { a } else { b }
+        }
+        ast::Statement::Block { stmts, .. } => seq_height(stmts@, stmts@.len() as int),
+        _ => 0,
+    }
+}
+pub open spec fn seq_height(s: Seq<ast::Statement>, n: int) -> nat
+    decreases s, n
+{
+    if n <= 0 || n > s.len() { 0 } else { let a = seq_height(s, n - 1); let b = height(s[n - 1]); if a >= b { a } else { b } }
+}
+pub proof fn lemma_all_plain_elem(s: Seq<ast::Statement>, n: int, k: int)
+    requires 0 <= k < n <= s.len(), all_plain(s, n)
+    ensures is_plain(s[k])
+    decreases n
+{ if k < n - 1 { lemma_all_plain_elem(s, n - 1, k); } }
+pub proof fn lemma_all_init_wf_elem(s: Seq<ast::Statement>, n: int, k: int)
+    requires 0 <= k < n <= s.len(), all_init_wf(s, n)
+    ensures init_wf(s[k])
+    decreases n
+{ if k < n - 1 { lemma_all_init_wf_elem(s, n - 1, k); } }
+pub proof fn lemma_seq_weight_mono(s: Seq<ast::Statement>, i: int, n: int)
+    requires 0 <= i <= n <= s.len()
+    ensures seq_weight(s, i) <= seq_weight(s, n)
+    decreases n - i
+{ if i < n { lemma_seq_weight_mono(s, i, n - 1); } }
+pub proof fn lemma_seq_height_elem(s: Seq<ast::Statement>, n: int, k: int)
+    requires 0 <= k < n <= s.len()
+    ensures height(s[k]) <= seq_height(s, n)
+    decreases n
+{ if k < n - 1 { lemma_seq_height_elem(s, n - 1, k); } }
+
+// changing only the statements of blocks keeps the shape
+pub proof fn lemma_same_edges(v: Seq<BasicBlock>, w: Seq<BasicBlock>)
+    requires shape(v), w.len() == v.len(),
+        forall|k: int| 0 <= k < v.len() ==> bb_index(#[trigger] w[k]) == bb_index(v[k]) && bb_preds(w[k]) =~= bb_preds(v[k]) && bb_succs(w[k]) =~= bb_succs(v[k])
+    ensures shape(w)
+{
+    assert forall|k: int| 0 <= k < w.len() implies #[trigger] shape_block(w, k) by {
+        assert(shape_block(v, k));
+        assert forall|q: usize| #[trigger] bb_preds(w[k]).contains(q) implies q < w.len() && bb_succs(w[q as int]).contains(k as usize) by { assert(bb_preds(v[k]).contains(q)); }
+        assert forall|s: usize| #[trigger] bb_succs(w[k]).contains(s) implies s < w.len() && bb_preds(w[s as int]).contains(k as usize) by { assert(bb_succs(v[k]).contains(s)); }
+        if k > 0 { let q = choose|q: usize| #[trigger] bb_preds(v[k]).contains(q) && q < k; assert(bb_preds(w[k]).contains(q)); }
+    }
+}
+// adding the edge i -> h (h not the entry) keeps the shape
+pub proof fn lemma_add_edge(v: Seq<BasicBlock>, w: Seq<BasicBlock>, i: usize, h: usize)
+    requires shape(v), w.len() == v.len(), i < v.len(), 1 <= h < v.len(),
+        forall|k: int| 0 <= k < v.len() ==> bb_index(#[trigger] w[k]) == bb_index(v[k])
+            && bb_preds(w[k]) =~= (if k == h { bb_preds(v[k]).insert(i) } else { bb_preds(v[k]) })
+            && bb_succs(w[k]) =~= (if k == i { bb_succs(v[k]).insert(h) } else { bb_succs(v[k]) })
+    ensures shape(w)
+{
+    assert forall|k: int| 0 <= k < w.len() implies #[trigger] shape_block(w, k) by {
+        assert(shape_block(v, k));
+        assert forall|q: usize| #[trigger] bb_preds(w[k]).contains(q) implies q < w.len() && bb_succs(w[q as int]).contains(k as usize) by {
+            if !(k == h && q == i) { assert(bb_preds(v[k]).contains(q)); }
+        }
+        assert forall|s: usize| #[trigger] bb_succs(w[k]).contains(s) implies s < w.len() && bb_preds(w[s as int]).contains(k as usize) by {
+            if !(k == i && s == h) { assert(bb_succs(v[k]).contains(s)); }
+        }
+        if k > 0 { let q = choose|q: usize| #[trigger] bb_preds(v[k]).contains(q) && q < k; assert(bb_preds(w[k]).contains(q)); }
+    }
+}
+
+// ---- consequences of the graph shape, in the property's own words: "every block is reachable from [block 0]" and
+// "whenever block i dominates block j then i <= j".  Paths and dominance as in units/dom/spec.rs (g[i] = predecessors).
+pub open spec fn preds_of(v: Seq<BasicBlock>) -> Seq<Set<usize>> { Seq::new(v.len(), |i: int| bb_preds(v[i])) }
+pub open spec fn is_path(g: Seq<Set<usize>>, s: Seq<usize>) -> bool {
+    s.len() >= 1 && s[0] == 0
+    && (forall|k: int| 0 <= k < s.len() ==> (#[trigger] s[k]) < g.len())
+    && (forall|k: int| 0 <= k < s.len() - 1 ==> g[#[trigger] s[k + 1] as int].contains(s[k]))
+}
+pub open spec fn reachable(g: Seq<Set<usize>>, i: usize) -> bool { exists|s: Seq<usize>| is_path(g, s) && #[trigger] s.last() == i }
+pub open spec fn dom(g: Seq<Set<usize>>, d: usize, i: usize) -> bool {
+    forall|s: Seq<usize>| is_path(g, s) && s.last() == i ==> #[trigger] s.contains(d)
+}
+pub open spec fn all_le(s: Seq<usize>, j: usize) -> bool { forall|k: int| 0 <= k < s.len() ==> (#[trigger] s[k]) <= j }
+
+// an entry-to-j path that never leaves the blocks 0..=j (follow smaller-index predecessors back to the entry)
+pub proof fn lemma_ascending_path(v: Seq<BasicBlock>, j: usize) -> (s: Seq<usize>)
+    requires shape(v), j < v.len()
+    ensures is_path(preds_of(v), s), s.last() == j, all_le(s, j)
+    decreases j
+{
+    let g = preds_of(v);
+    if j == 0 {
+        seq![0usize]
+    } else {
+        assert(shape_block(v, j as int));
+        let q = choose|q: usize| #[trigger] bb_preds(v[j as int]).contains(q) && q < j;
+        let t = lemma_ascending_path(v, q);
+        let s = t.push(j);
+        assert(is_path(g, s)) by {
+            assert forall|k: int| 0 <= k < s.len() implies (#[trigger] s[k]) < g.len() by { if k < t.len() { assert(s[k] == t[k]); } }
+            assert forall|k: int| 0 <= k < s.len() - 1 implies g[#[trigger] s[k + 1] as int].contains(s[k]) by {
+                if k + 1 < t.len() { assert(s[k + 1] == t[k + 1]); assert(s[k] == t[k]); }
+                else { assert(s[k + 1] == j); assert(s[k] == t.last()); }
+            }
+            assert(s[0] == t[0]);
+        }
+        assert(all_le(s, j)) by {
+            assert forall|k: int| 0 <= k < s.len() implies (#[trigger] s[k]) <= j by { if k < t.len() { assert(s[k] == t[k]); } }
+        }
+        s
+    }
+}
+pub proof fn theorem_reachable(v: Seq<BasicBlock>, j: usize)
+    requires shape(v), j < v.len()
+    ensures reachable(preds_of(v), j)
+{
+    let s = lemma_ascending_path(v, j);
+    assert(is_path(preds_of(v), s) && s.last() == j);
+}
+pub proof fn theorem_dominator_order(v: Seq<BasicBlock>, i: usize, j: usize)
+    requires shape(v), j < v.len(), dom(preds_of(v), i, j)
+    ensures i <= j
+{
+    let s = lemma_ascending_path(v, j);
+    assert(s.contains(i));
+    let k = choose|k: int| 0 <= k < s.len() && s[k] == i;
+    assert(s[k] <= j);
+}
